@@ -109,6 +109,9 @@ main (void)
 	T *buf ;
 	int k ;
 
+	/* explicit initial values: the harness is also run under --nondet-static (C19 H2), where every
+	** static object - including the library's sf_errno, sf_parselog, float_caps ... - starts arbitrary */
+	g_seek_calls = g_hdr_calls = g_hdr_calc = g_rd_calls = g_wr_calls = 0 ;
 	handle_arbitrary (psf, CH, sizeof (T)) ;
 	handle_arbitrary (&g_other, CH, sizeof (T)) ;
 	CAT (psf->read_, TN) = stub_read ;
